@@ -472,7 +472,7 @@ func schemaKnownNames(p *h.PathState) (names []string, certain bool) {
 				// an item written as the other kind than the schema declares (a block
 				// under an attribute's name or the reverse) reads as the declared
 				// kind in JSON
-				if (it.Block != nil && (mc.Body.Attr(it.Block.Type) != nil || mc.Body.Any != nil)) || (it.Attr != nil && mc.Body.Block(it.Attr.Name) != nil) {
+				if (it.Block != nil && (mc.Body.Attr(it.Block.Type) != nil || (mc.Body.Any != nil && mc.Body.Block(it.Block.Type) == nil))) || (it.Attr != nil && mc.Body.Block(it.Attr.Name) != nil) {
 					certain = false
 					whyUncertain = "kind_mismatch"
 					return
